@@ -22,7 +22,7 @@ CHECKS = {
             'guard and h=0.5; its spectrum converges under grid doubling to an independently integrated closed form (DemogSelModels.equil too); '
             'further integration under the same nu, gamma, h leaves it unchanged up to an error that contracts under refinement.',
             'The 1.5% clause is read at the top of the ladder (a tenth of the default step, grids 2x the coarse ones). Two classes of histories '
-            '(400-fold expansion 0.3-0.6 time units before sampling) exceed 1.5% and are recorded known findings.',
+            '(400-fold expansion 0.3-0.6 time units before sampling) exceed 1.5% and are recorded known findings. Added after the seeded waves: every history also in absolute time (initial_t..T); strong exponential declines inside one call; 1-D selection wrappers at constant size; call histories of phi_1D over (nu, beta); the shared equilibrium density must come back unchanged.',
             'DESIGN.md §3 C01'),
     'C02': ('model_checking',
             'operator extraction by basis exhaustion (all unit densities) for every kernel x grid tuple x parameter lattice, against the documented scheme coded twice in exact Fractions (assembly form and flux form)',
@@ -44,7 +44,7 @@ CHECKS = {
             'the spectrum must be unchanged. Superposition in (phi, theta0) is checked on every integration op of the alphabet, every frozen and '
             'nomut pattern, for every unit density against a dense one, 4 coefficient pairs x 9 theta pairs.',
             'Program alphabet is finite (mc/programs.py): 4 equilibria, 4-5 integration ops per dimension, one proportion vector per admixture op; '
-            'quick tier bounds program length at 3 (1-3 populations) / 2 (4-5 populations), thorough 4 / 3.',
+            'quick tier bounds program length at 3 (1-3 populations) / 2 (4-5 populations), thorough 4 / 3. Added after the seeded waves: the equilibrium density over the whole stated (gamma, h, nu) domain and on interior grids at every factor, proportional to theta0 entry by entry; the caller\'s density is passed as it is and compared afterwards; Fortran-ordered densities; long epochs at magnitudes 1e-8.',
             'DESIGN.md §3 C03'),
     'C04': ('model_checking',
             'exhaustive enumeration of frozen/nomut patterns x subsets of populations x parameter lattice x driver kind, each on every unit density, with a kernel-level replay of the driver loop and exact conservation identities as oracle',
@@ -55,7 +55,7 @@ CHECKS = {
             'S the S-marginal of the joint run equals integrating the S-marginal alone (m=0, gamma=0). Every frozen-with-migration placement is '
             'rejected and every other accepted.',
             'One grid for all axes (driver API); the delj switch is off here (C02 covers it); isolated-marginal clause asserted where all S '
-            'frequencies are interior; quick tier covers a third of the parameter product per frozen pattern on an asymmetric grid (cap reported).',
+            'frequencies are interior; quick tier covers a third of the parameter product per frozen pattern on an asymmetric grid (cap reported). Added after the seeded waves: every frozen pattern again with the delj switch on, with Fortran-ordered / strided densities and a strided grid, with sizes that change during the integration (replayed with the per-step rule), and with each migration rate in turn limiting the step.',
             'DESIGN.md §3 C04'),
     'C05': ('model_checking',
             'operator extraction on every unit density for each sampling path x sample sizes x grids, against exact Fraction integrals of binomial probabilities times piecewise-linear basis functions and exact trapezoid sums',
@@ -77,7 +77,7 @@ CHECKS = {
             'pure split is a diagonal copy, input untouched) are evaluated on each. Acceptance of every simplex vector and rejection of every '
             'vector summing to 1+delta is enumerated for every function; memory layouts for remove/reorder.',
             'Same grid on every axis (the API takes one xx); phi_1D_to_2D conserves interior points only, as documented; quick tier bounds depth '
-            '(2 from 1-D/2-D, 1 from 3-D..5-D) and uses the step-1/2 lattice for 3-4 source pulses in 4-D/5-D (cap reported).',
+            '(2 from 1-D/2-D, 1 from 3-D..5-D) and uses the step-1/2 lattice for 3-4 source pulses in 4-D/5-D (cap reported). Added after the seeded waves: a different grid, and a different number of grid points, on every axis for every pulse / constructor / removal; all of them on non-contiguous densities.',
             'DESIGN.md §3 C06'),
     'C07': ('model_checking',
             'exhaustive enumeration of (k, all k! grid orderings, degree basis, mode, result type, call style) against an exact Fraction Lagrange oracle',
@@ -133,7 +133,7 @@ CHECKS = {
             'checked on all fixed-subsets for k<=5, perturb_params on a bounds lattice (negative, zero, None) with the uniform draw replaced by '
             'every extreme answer.',
             '1e-12 relative slack on bounds for log-space and NLopt optimisers (1-ulp excursions from exp(log(b)) / internal rescaling); NLopt '
-            'RoundoffLimited is reported as documented (-inf, nan) and counted; small iteration budgets; quick tier k<=3.',
+            'RoundoffLimited is reported as documented (-inf, nan) and counted; small iteration budgets; quick tier k<=3. Added after the seeded waves: fixed values that change between runs of one process; start vectors as arrays and lists (untouched afterwards); parameters exactly on a bound.',
             'DESIGN.md §3 C12'),
     'C13': ('model_checking',
             'exhaustive enumeration of every single-SNP configuration (genotype vectors x ancestral-allele / FILTER / allele forms) through the real VCF and SNP-table parsers, of every answer of the subsampling and bootstrap random draws (environment enumeration), of every chunk size, and of every spectrum with <=3 SNPs, against an independent counter over the genotype matrix',
@@ -180,7 +180,7 @@ CHECKS = {
             'Agreement is required to 1e-8; where two computations legitimately differ by operator splitting or time-step choice (front end '
             'holding demes in another internal order; frozen branches of nominal size 1/Ne) the error must be below 2e-3 and shrink with the '
             'time step (counted in evidence). Export with Nref=None normalises rates by design and is not compared. One known finding '
-            '(export of zero-length demes).',
+            '(export of zero-length demes). Added after the seeded waves: one size-function epoch cut into 3-4 pieces by other demes\' events; migration windows; repeatable export. Coincident events on one deme are excluded (not orderable by a graph); programs with frozen populations may agree only on a grid ladder.',
             'DESIGN.md §3 C16'),
     'C17': ('model_checking',
             'stateless exploration of all thread interleavings of the real cache builder under a controlled scheduler (fake multiprocessing; stateful symmetry-reduced DFS cross-checked by preemption-bounded unpruned DFS), exhaustive fault subsets and merge multisets, plus a quadrature lattice against an independently coded reference',
@@ -197,7 +197,7 @@ CHECKS = {
             'exterior lattices, and compiled pdfs with reference formulas.',
             'Scheduling points only at Manager-proxy operations (the workers share nothing else; a free-running pass with real processes is '
             'included); 2-D tail masses use adaptive quadrature at epsrel 1e-3 in the implementation and are compared at 2e-3; total weight ~ 1 '
-            'asserted only on fine gamma grids.',
+            'asserted only on fine gamma grids. Added after the seeded waves: split-job parts built by a worker pool under every schedule; duplicates differing by 1e-7; 2-3 point masses; near-neutral bivariate DFEs; exterior_int off in mixtures.',
             'DESIGN.md §3 C17'),
     'C18': ('model_checking',
             'exhaustive enumeration of genotype partitions against brute-force enumeration of all genotype vectors and the exact (Fraction) sampling law; lattice enumeration of matrices and of the full correction on every unit model spectrum',
@@ -209,7 +209,7 @@ CHECKS = {
             'model spectrum for 1-3 populations x coverage x F x sim_threshold: totals never exceed the model, entries are non-negative, and at '
             'depth 80 the result equals the plain projection.',
             'The Monte-Carlo branch is run with owned seeds and only draw-independent properties are asserted; coverage distributions with no '
-            'reads at all are excluded (nothing can be called).',
+            'reads at all are excluded (nothing can be called). Added after the seeded waves: the random source of the subsampling step replaced by an enumerated answer list (every joint outcome reachable); simulated regime with deep coverage (support containment, 1-3 populations); wrapper histories across coverage distributions.',
             'DESIGN.md §3 C18'),
     'C19': ('model_checking',
             'exhaustive monomial basis x parameter-regime lattice x step sizes against exact derivatives; closed-form information matrices on an eps ladder; all bootstrap permutations; explicit-state enumeration of all call sequences over the shared cache up to a depth bound',
@@ -220,7 +220,7 @@ CHECKS = {
             'scale-free Poisson models, multinom and log variants) with the error required to contract at second order in eps; all 24 orderings '
             'of 4 bootstraps; sum_chi2_ppf on 8 input forms x 5 weight vectors; every sequence of <=2 (thorough 3) calls from a 10-symbol '
             'alphabet sharing Godambe.cache must reproduce the fresh-state value of each call.',
-            'Models with an overall scale parameter are degenerate under multinom and excluded there; permutation tolerance scales with cond(J).',
+            'Models with an overall scale parameter are degenerate under multinom and excluded there; permutation tolerance scales with cond(J). Added after the seeded waves: every nested-parameter set for LRT_adjust; per-bootstrap theta (plain and log parameters, LRT); user-masked data entries; array-valued p0 untouched.',
             'DESIGN.md §3 C19'),
     'C20': ('model_checking',
             'explicit-state breadth-first search over the module state of the library (all memoisation tables hashed by key and value, global switches, numpy error state) with one real API call per transition, to closure or a reported state cap; layout enumeration per array argument; hash-seed sweep in subprocesses',
@@ -233,7 +233,7 @@ CHECKS = {
             'lists, dicts) and results must not alias inputs. Every array argument is also passed as Fortran, transposed, strided, reversed and '
             'read-only memory. Fresh values and all length-2 sequences are recomputed under 4-5 PYTHONHASHSEED values in new interpreters.',
             'A finite set of hash seeds stands for "all seeds"; a crash of the evaluating process (e.g. heap corruption) is reported as a violation; '
-            'the state cap, when hit, is reported in evidence with what was fully covered.',
+            'the state cap, when hit, is reported in evidence with what was fully covered. Added after the seeded waves: zero-length epochs for every integrator, equal-individuals/different-ploidy pairs, one-corner-masked spectra, ancient samples with caller-owned lists, None bounds, list-or-array parameter vectors.',
             'DESIGN.md §3 C20'),
 }
 
